@@ -529,6 +529,29 @@ def main():
     units = pc["units"]
     with ThreadPoolExecutor(max_workers=min(8, len(units))) as ex:
         results = list(ex.map(lambda u: run_unit(u, tier, seed), units))
+    # ---- inventories: new code the contracts do not know about makes the check undecided (never green, never an alarm)
+    inv_undecided, inv_info = [], {}
+    if pc.get("inventory") == "hash_iteration":
+        import inventory
+        listed = {}
+        for line in open(os.path.join(ROOT, "specs", "c03_iteration_sites.txt")):
+            if line.strip() and not line.startswith("#") and " ## " in line:
+                k, v = line.rsplit(" ## ", 1)
+                listed[k.strip()] = v.strip()
+        sites = inventory.hash_iteration_sites(REPO)
+        for st in sites:
+            if st["key"] not in listed:
+                inv_undecided.append({"unit": "inventory", "reason": "HashMap/HashSet iteration site not classified (specs/c03_iteration_sites.txt)", "site": st["key"], "at": f"{st['file']}:{st['line']}"})
+        inv_info = {"hash_iteration_sites": len(sites), "classified": len([x for x in sites if x["key"] in listed]),
+                    "under_contract": len([x for x in sites if listed.get(x["key"], "").startswith("fuc:")])}
+    if pc.get("inventory") == "pub_mut_api":
+        import inventory
+        covered = set(pc.get("api_covered", [])) | set(pc.get("api_exempt", {}).keys())
+        api = inventory.pub_mut_api(REPO)
+        for a in api:
+            if a["fn"] not in covered:
+                inv_undecided.append({"unit": "inventory", "reason": "public `&mut self` method of Story without a guard contract or an exemption", "fn": a["fn"], "file": a["file"]})
+        inv_info = {"pub_mut_methods": len(api), "covered_or_exempt": len([a for a in api if a["fn"] in covered])}
     known, _fixed = load_known()
     kprop = known.get(pid, {})
     violations, known_hit, undecided = [], [], []
@@ -548,6 +571,7 @@ def main():
             else:
                 violations.append(v)
         undecided += r["undecided"]
+    undecided += inv_undecided
     os.makedirs(os.path.join(ROOT, "evidence"), exist_ok=True)
     os.makedirs(os.path.join(ROOT, "replays"), exist_ok=True)
     for v, what in known_hit:
@@ -623,6 +647,7 @@ def main():
             "known_findings_hit": [{"id": v["id"], "what": w} for v, w in known_hit],
             "undecided": undecided,
             "auto_stubs_generated": [p for r in results for p in r.get("auto_stubs", [])],
+            "inventory": inv_info,
             "not_decided_by_this_check": pc.get("not_decided", ""),
             "units": units,
         },
